@@ -324,19 +324,26 @@ func (in *fieldIndex) SearchKey(k *indexedField) (i int, ok bool) {
 }
 
 func (in *fieldIndex) Delete(objid uint64) {
+	// an object which is not in this index (damaged index) has nothing to delete
 	if field, ok := in.objectIds[objid]; ok {
-		if i, ok := in.SearchKey(field); ok {
+		i, ok := in.SearchKey(field)
+		if !ok {
+			// the index is not ordered (damaged index), we look for the entry itself
+			for i = 0; i < len(in.Index); i++ {
+				if in.Index[i] == field {
+					ok = true
+					break
+				}
+			}
+		}
+		if ok {
 			if len(in.Index) == 1 {
 				in.Index = make([]*indexedField, 0)
 			} else {
 				in.Index = append(in.Index[:i], in.Index[i+1:]...)
 			}
-			delete(in.objectIds, objid)
-		} else {
-			panic("key not found")
 		}
-	} else {
-		panic("object id not found")
+		delete(in.objectIds, objid)
 	}
 }
 
